@@ -2488,7 +2488,8 @@ class Trimesh(Geometry3D):
             )
 
         # if transformation flips winding of triangles
-        if has_rotation and transformations.flips_winding(matrix):
+        flipped = has_rotation and transformations.flips_winding(matrix)
+        if flipped:
             log.debug("transform flips winding")
             # fliplr will make array non C contiguous
             # which will cause hashes to be more
@@ -2497,6 +2498,13 @@ class Trimesh(Geometry3D):
 
         # assign the new values
         self.vertices = new_vertices
+
+        if flipped:
+            # reversing the columns of `faces` reorders every edge so
+            # only the normals we just transformed are still valid
+            self._cache.clear(exclude={"face_normals", "vertex_normals"})
+            self._cache.id_set()
+            return self
 
         # preserve normals and topology in cache
         # while dumping everything else
